@@ -1767,6 +1767,108 @@ def suite_int_tag_items(tier, seed, backends=("sql", "kv")):
     return s
 
 
+# ------------------------------------------------------------------------------------ C12 / C13: limits the configuration file does not mention
+def suite_config_defaults(tier, seed, which=("subscription_limit", "max_limit")):
+    s = Suite("oracle:limits-default-when-not-configured")
+    s.rule = ("the configuration file names neither subscription_limit nor max_limit (test_config.yaml does not): the defaults of ConfigClass apply. "
+              "(a) one connection sends 36 REQs with distinct ids: exactly the first 32 (the built-in subscription_limit) are accepted, the others "
+              "refused with a NOTICE; (b) with the built-in max_limit (lowered for the test at CLASS level, as a different release default would be, "
+              "never assigned to the Config object) 45 matching events are stored and REQs with limit 100 / 41 / none are answered with the newest "
+              "40 (LMDB backend, which reads the cap when the REQ is planned)")
+    from nostr_relay.config import Config
+
+    async def subs():
+        import falcon
+        from nostr_relay import web
+        from . import relay
+        env.load_config()
+        assert "subscription_limit" not in Config.__dict__
+        env.patch_clock()
+        env.patch_web_sleep()
+        sc = env.Scratch()
+        st = await env.sql_storage(sc)
+        try:
+            sent, inbox = [], asyncio.Queue()
+
+            async def ws_send(text):
+                sent.append(json.loads(text))
+
+            async def ws_recv():
+                item = await inbox.get()
+                if item is None:
+                    raise falcon.WebSocketDisconnected()
+                return item
+
+            async def ws_close(code=1000):
+                sent.append(["CLOSED", code])
+            task = asyncio.create_task(web.start_client(st, ws_send, ws_recv, ws_close, logging.getLogger("verif.defaults"), rate_limiter=relay.NullLimiter(),
+                                                        remote_addr="10.5.0.1"))
+            outcome = []
+            for i in range(36):
+                n0 = len(sent)
+                inbox.put_nowait(json.dumps(["REQ", "sub%d" % i, {"kinds": [1], "limit": 0}]))
+                for _ in range(3000):
+                    await asyncio.sleep(0.002)
+                    if any(f[0] in ("EOSE", "NOTICE", "CLOSED") for f in sent[n0:]) or task.done():
+                        break
+                outcome.append(next((f[0] for f in sent[n0:] if f[0] in ("EOSE", "NOTICE", "CLOSED")), "SILENCE"))
+            inbox.put_nowait(None)
+            await asyncio.wait([task], timeout=10)
+            return outcome
+        finally:
+            await env.close(st)
+            sc.close()
+
+    async def cap(backend):
+        env.load_config()
+        assert "max_limit" not in Config.__dict__
+        env.patch_clock()
+        sc = env.Scratch()
+        st = await (env.sql_storage(sc) if backend == "sql" else env.kv_storage(sc))
+        try:
+            evs = [env.mk_event(i % 3, 1, env.NOW - 100 + i, [], "dflt%d" % i) for i in range(45)]
+            for e in evs:
+                await st.add_event(dict(e))
+            await env.quiesce(st)
+            out = {}
+            for lim in (100, 41, None):
+                f = {"kinds": [1]}
+                if lim is not None:
+                    f["limit"] = lim
+                got, oc = await env.req(st, [f])
+                out[str(lim)] = sorted(e.created_at for e in got)
+            return out
+        finally:
+            await env.close(st)
+            sc.close()
+    if "subscription_limit" in which:
+        outcome = env.run(subs())
+        case = {"reqs": 36, "configured": "nothing"}
+        s.case(case, nontrivial=True)
+        want = ["EOSE"] * 32 + ["NOTICE"] * 4
+        if outcome != want:
+            firstbad = next(i for i, (a, b) in enumerate(zip(outcome, want)) if a != b)
+            s.violate("subscription-limit-default-ignored", case, "REQ number %d on one connection was answered %s; with the built-in limit of 32 subscriptions it "
+                      "must be %s" % (firstbad + 1, outcome[firstbad], want[firstbad]), expected=want, observed=outcome)
+    if "max_limit" in which:
+        cls = type(Config)
+        saved = cls.max_limit
+        cls.max_limit = 40
+        try:
+            for backend in ("kv",):       # the SQL backend binds its cap when storage/base.py is imported (covered by the fresh-interpreter oracles)
+                out = env.run(cap(backend))
+                newest = sorted(env.NOW - 100 + i for i in range(45))[-40:]
+                for lim, got in out.items():
+                    case = {"backend": backend, "limit": lim, "built_in_max_limit": 40, "stored_matching": 45}
+                    s.case(case, nontrivial=True)
+                    if got != newest:
+                        s.violate("limit-cap-or-newest", case, "with the built-in max_limit the REQ is not answered with the newest 40 events (%d sent)" % len(got),
+                                  expected=newest[:3] + ["..."], observed=got[:3] + ["... %d" % len(got)])
+        finally:
+            cls.max_limit = saved
+    return s
+
+
 # ------------------------------------------------------------------------------------ C12
 CAP_SCRIPT = r'''
 import sys, json, asyncio, logging
@@ -2558,6 +2660,7 @@ def registry():
         "oracle:config-derived-values-follow-reload": suite_config_reload,
         "oracle:publishing-while-connections-churn": suite_publish_during_churn,
         "oracle:ack-agrees-for-integer-tag-items": suite_int_tag_items,
+        "oracle:limits-default-when-not-configured": suite_config_defaults,
         "oracle:limit-cap-plain-subscribe": suite_cap_plain_subscribe,
         "oracle:announce-every-accepted-event": suite_announce_all_accepted,
         "oracle:removed-unreachable-after-read": suite_removed_unreachable_after_read,
